@@ -283,7 +283,7 @@ struct RT;
 inline bool internal_kind(const char* k)
 {
     static const char* ks[] = {"mlock", "munlock", "mtry", "mtimed", "slock", "sunlock", "stry", "stimed", "ald", "ast", "arm", "cas",
-                               "pu", "cvwait", "cvwake", "notify", "yield"};
+                               "pu", "cvwait", "cvwake", "notify", "yield", "fence"};
     for (auto x : ks)
         if (std::strcmp(x, k) == 0) return true;
     return false;
@@ -1121,6 +1121,73 @@ class vshared_timed_mutex: public vmutex_base {
     }
 };
 
+// recursive forms: only the outermost lock / unlock is a step and an event
+class vrecursive_mutex: public vmutex_base {
+    int depth_ = 0;
+
+  protected:
+    bool mine() const { return owner_ == vrt::cur_id() && depth_ > 0; }
+
+  public:
+    void lock()
+    {
+        if (mine()) {
+            ++depth_;
+            return;
+        }
+        do_lock("mlock");
+        depth_ = 1;
+    }
+    bool try_lock()
+    {
+        if (mine()) {
+            ++depth_;
+            return true;
+        }
+        if (!do_try("mtry")) return false;
+        depth_ = 1;
+        return true;
+    }
+    void unlock()
+    {
+        if (mine() && depth_ > 1) {
+            --depth_;
+            return;
+        }
+        depth_ = 0;
+        do_unlock("munlock");
+    }
+    template<class R, class P>
+    bool try_lock_for(const chrono::duration<R, P>&)
+    {
+        if (mine()) {
+            ++depth_;
+            return true;
+        }
+        if (!do_timed("mtimed")) return false;
+        depth_ = 1;
+        return true;
+    }
+    template<class C, class D>
+    bool try_lock_until(const chrono::time_point<C, D>&)
+    {
+        return try_lock_for(chrono::milliseconds(1));
+    }
+};
+using vrecursive_timed_mutex = vrecursive_mutex;
+
+// fences: a step and an event of their own (HB.tla gives them the C++ meaning)
+inline void vatomic_thread_fence(memory_order mo) noexcept
+{
+    if (!vrt::scheduled()) return;
+    vrt::simple_point("fence");
+    vrt::log_ev("fence", "", 0, 0, 0, 0, vrt::mo_code(mo));
+    if (vrt::mo_code(mo) >= 3) {
+        vrt::simple_point("pu");
+        vrt::log_ev("pu", "fence", 0);
+    }
+}
+
 // ---- condition variable ----------------------------------------------------------------------------
 class vcondition_variable {
     struct W {
@@ -1792,6 +1859,9 @@ void swap(vshared_lock<M>& a, vshared_lock<M>& b) noexcept
 #define timed_mutex vtimed_mutex
 #define shared_mutex vshared_mutex
 #define shared_timed_mutex vshared_timed_mutex
+#define recursive_mutex vrecursive_mutex
+#define recursive_timed_mutex vrecursive_timed_mutex
+#define atomic_thread_fence vatomic_thread_fence
 #define condition_variable vcondition_variable
 #define condition_variable_any vcondition_variable_any
 #define yield vyield
